@@ -166,8 +166,8 @@ KNOWN_RECIPES = {
 def run_known_recipe(ctx: Ctx, cls: str) -> dict:
     src, drv = KNOWN_RECIPES[cls]
     d, log = real_build(ctx, "known-" + cls, {"native.py": src}, ["native"])
-    if d is None:
-        raise ToolFailure("cannot build the witness program of a known finding: " + log)
+    if d is None:       # e.g. the C compiler rejects what a broken tree emits: no dynamic witness, not a tool failure
+        return {"program": src, "driver": drv, "exit_code": None, "signal": None, "output": "", "build_failed": log[-400:]}
     rc, out = run_py(d, drv, [])
     return {"program": src, "driver": drv, "exit_code": rc, "signal": -rc if rc < 0 else None, "output": out[-300:]}
 
@@ -181,10 +181,12 @@ def dynamic_generated(ctx: Ctx, tag: str, source: str, fnames: list[str], reps: 
     rc, out = run_py(d, G.DRIVER, ["native", ",".join(fnames), str(reps)], timeout=300)
     rows = [json.loads(l) for l in out.splitlines() if l.startswith("{")]
     res["calls"] = len(rows)
-    if rc != 0:
+    if rc < 0 or rc in (134, 139):
         last = rows[-1] if rows else None
-        res["failures"].append({"class": "crash", "exit_code": rc, "signal": -rc if rc < 0 else None,
+        res["failures"].append({"class": "crash", "exit_code": rc, "signal": -rc if rc < 0 else rc - 128,
                                 "after_call": last, "tail": out[-300:]})
+    elif rc != 0:
+        res["driver_error"] = out[-400:]
     for r in rows:
         if "leaked" in r:
             res["failures"].append(dict(r, **{"class": "refcount-imbalance"}))
@@ -419,6 +421,10 @@ def main(ctx: Ctx) -> None:
         ctx.sample({"function": ok_sample[1]["name"], "program": ok_sample[0]["key"], "driver_line": ok_sample[1]["line"][:400],
                     "verdict": "ok"})
 
+    gen_sample = next((j for j in results if j["kind"] == "gen" and j["error"] is None), None)
+    if gen_sample:
+        ctx.sample({"generated_program": gen_sample["key"], "functions": [f["name"] for f in gen_sample["funcs"]][:12]})
+
     # 3. every rejection: Lean-replayed path, classification, search
     replays = [f["replay_line"] for _, f in rejected if f.get("replay_line")]
     rep_out = iter(lean_verdicts(ctx, replays)) if replays else iter([])
@@ -432,6 +438,7 @@ def main(ctx: Ctx) -> None:
         groups[json.dumps(f["observed"], sort_keys=True)].append((r, f))
     ctx.count("disagreements_checked", len(rejected))
     n_unknown_reported = 0
+    dyn_cache: dict[str, dict] = {}
     for key, members in sorted(groups.items(), key=lambda kv: -len(kv[1])):
         obs = json.loads(key)
         members.sort(key=lambda rf: (rf[0]["kind"] != "gen", rf[0]["kind"] != "pinned", rf[0]["kind"] != "run", rf[1]["nops"]))
@@ -446,21 +453,32 @@ def main(ctx: Ctx) -> None:
         if obs["class"] in KNOWN_RECIPES:
             dyn = run_known_recipe(ctx, obs["class"])
             detail["dynamic"] = dyn
-            obs2 = dict(obs, dynamic="SIGSEGV" if dyn["signal"] == 11 else f"exit {dyn['exit_code']}")
+            obs2 = dict(obs, dynamic="SIGSEGV" if dyn["signal"] == 11 else
+                        ("witness-build-failed" if dyn.get("build_failed") else f"exit {dyn['exit_code']}"))
             ctx.report(obs2, what + f"; witness program ends with {obs2['dynamic']}", detail)
             continue
         if n_unknown_reported >= 3:
             continue
         n_unknown_reported += 1
         found = None
-        for rr, ff in members[:2]:
+        cands, seen_prog = [], set()
+        for rr, ff in members:
+            if rr["key"] not in seen_prog and rr["kind"] in ("gen", "run"):
+                seen_prog.add(rr["key"])
+                cands.append((rr, ff))
+            if len(cands) >= 2:
+                break
+        for rr, ff in cands:
             tag = f"dyn{n_unknown_reported}-{len(detail.get('tried', []))}"
-            if rr["kind"] == "gen":
-                dyn = dynamic_generated(ctx, tag, ff["source"], [ff["short"]], reps=ctx.pick(30, 300))
-            elif rr["kind"] == "run":
-                dyn = dynamic_corpus(ctx, tag, ff["source"], ff.get("files", {}))
+            if rr["key"] in dyn_cache:
+                dyn = dyn_cache[rr["key"]]
+            elif rr["kind"] == "gen":
+                # the driver calls every generated entry point f<i>; helpers are reached through them
+                entry = [g["short"] for g in rr["funcs"] if g["short"] and g["short"][0] == "f" and g["short"][1:].isdigit()]
+                dyn = dynamic_generated(ctx, tag, ff["source"], entry, reps=ctx.pick(30, 300))
             else:
-                continue
+                dyn = dynamic_corpus(ctx, tag, ff["source"], ff.get("files", {}))
+            dyn_cache[rr["key"]] = dyn
             detail.setdefault("tried", []).append({"program": rr["key"], "function": ff["name"], "result": dyn})
             if dyn.get("failures"):
                 found = (rr, ff, dyn)
@@ -479,12 +497,6 @@ def main(ctx: Ctx) -> None:
     lap("rejections_and_search")
     # 4. thorough: pure search on generated programs (dynamic part of the property)
     if not ctx.quick():
-        todo = [(r, [f["short"] for f in r["funcs"] if f["short"] and f["short"].startswith("f") and f["short"][1:].isdigit()])
-                for r in results if r["kind"] == "gen" and r["error"] is None][:6]
-        srcs = {}
-        for r in results:
-            pass
-        # the generated sources are not kept in the results of accepted functions: regenerate deterministically
         import random
         rng2 = random.Random(f"C06-dyn:{ctx.seed}")
         progs = [G.gen_program(rng2, 4) for _ in range(6)]
@@ -496,8 +508,9 @@ def main(ctx: Ctx) -> None:
             for fail in dyn.get("failures", []):
                 ctx.report({"class": "dynamic-" + fail["class"]},
                            f"generated program misbehaves when compiled: {json.dumps(fail)[:300]}",
-                           {"source": src, "failure": fail, "program_kind": "gen-dynamic", "functions": names})
+                           {"source": src, "failure": fail, "program_kind": "gen-dynamic", "functions": names, "dynamic": dyn})
                 break
+        lap("dynamic_search")
 
     if not proved and not ctx.violations:
         ctx.violation("Lean development for C06 no longer builds (Props/C06 over the regenerated Gen/C06Sample)",
